@@ -186,6 +186,64 @@ var fixedTwins = func() []fixedTwin {
 		add("a helper named like a package-level "+d.name+", defined between the higher-order helper and the helper that passes it", d.decl,
 			apply+localPg+check+twinRule("check("+d.ax+") || pg("+d.ay+")"), twinRule("((("+d.body(d.ax)+"))) || ("+d.body(d.ay)+")"))
 	}
+	// several helpers defined by ONE := (`a, b := func…, func…`): each helper's parameters are its own, whatever the helpers defined
+	// next to it call theirs -- the same names, the same names in another order, other names, a shared name at another index,
+	// another number of parameters. (Rejected by the converter today: `multi-value := is not supported`.) The helper under test
+	// is called in the rule that can report; the others in a rule over a pattern the probe file has no match for.
+	is := func(p1, p2 string) string { return p1 + ".Type.Is(`int64`) && " + p2 + ".Const" }
+	lit := func(params, p1, p2 string) string { return "func(" + params + ") bool { return " + is(p1, p2) + " }" }
+	minusRule := func(where string) string { return "\tm.Match(`$x - $y`).\n\t\tWhere(" + where + ").\n\t\tReport(`other $x`)\n" }
+	type gh struct{ name, params, p1, p2 string }
+	vw := gh{"v, w", "v, w dsl.Var", "v", "w"}
+	others := []gh{
+		{"the same parameter names", "v, w dsl.Var", "v", "w"},
+		{"the same parameter names in the other order", "w, v dsl.Var", "w", "v"},
+		{"the other order, one field per parameter", "w dsl.Var, v dsl.Var", "w", "v"},
+		{"disjoint parameter names", "p, q dsl.Var", "p", "q"},
+		{"the second name of the first helper as first parameter", "w, u dsl.Var", "w", "u"},
+		{"the first name of the first helper as second parameter", "u, v dsl.Var", "u", "v"},
+		{"a blank and the first name of the first helper behind it", "_ dsl.Var, u, v dsl.Var", "u", "v"},
+	}
+	inl := "(" + is(x, y) + ")"
+	for _, g := range others {
+		call := "(" + x + ", " + y + ")"
+		if strings.HasPrefix(g.params, "_") {
+			call = "(" + y + ", " + x + ", " + y + ")"
+		}
+		add("two helpers by one :=, the second with "+g.name+"; the second is called", "",
+			"\ta, b := "+lit(vw.params, vw.p1, vw.p2)+", "+lit(g.params, g.p1, g.p2)+"\n"+twinRule("b"+call)+minusRule("a("+x+", "+y+")"),
+			twinRule(inl)+minusRule(inl))
+		add("two helpers by one :=, the first with "+g.name+"; the second is called", "",
+			"\ta, b := "+lit(g.params, g.p1, g.p2)+", "+lit(vw.params, vw.p1, vw.p2)+"\n"+twinRule("b("+x+", "+y+")")+minusRule("a"+call),
+			twinRule(inl)+minusRule(inl))
+		add("three helpers by one :=, the second with "+g.name+"; the third is called", "",
+			"\ta, b, c := "+lit(vw.params, vw.p1, vw.p2)+", "+lit(g.params, g.p1, g.p2)+", "+lit("w, v dsl.Var", "w", "v")+"\n"+
+				twinRule("c("+x+", "+y+")")+minusRule("a("+x+", "+y+") || b"+call),
+			twinRule(inl)+minusRule(inl+" || "+inl))
+		add("a helper by itself, then two by one :=, the first of them with "+g.name+"; it is called", "",
+			"\ta := "+lit(vw.params, vw.p1, vw.p2)+"\n\tb, c := "+lit(g.params, g.p1, g.p2)+", "+lit(vw.params, vw.p1, vw.p2)+"\n"+
+				twinRule("b"+call)+minusRule("a("+x+", "+y+") || c("+x+", "+y+")"),
+			twinRule(inl)+minusRule(inl+" || "+inl))
+		add("two helpers by one :=, then a helper by itself with "+g.name+"; it is called", "",
+			"\ta, b := "+lit(vw.params, vw.p1, vw.p2)+", "+lit("w, v dsl.Var", "w", "v")+"\n\tc := "+lit(g.params, g.p1, g.p2)+"\n"+
+				twinRule("c"+call)+minusRule("a("+x+", "+y+") || b("+x+", "+y+")"),
+			twinRule(inl)+minusRule(inl+" || "+inl))
+	}
+	// another number of parameters, parameters of other types
+	add("two helpers by one :=, one parameter and two; the second is called", "",
+		"\ta, b := func(v dsl.Var) bool { return v.Const }, "+lit("w, v dsl.Var", "w", "v")+"\n"+twinRule("b("+x+", "+y+")")+minusRule("a("+x+")"),
+		twinRule(inl)+minusRule("("+x+".Const)"))
+	add("two helpers by one :=, two parameters and one; the second is called", "",
+		"\ta, b := "+lit("v, w dsl.Var", "v", "w")+", func(w dsl.Var) bool { return w.Type.Is(`int64`) }\n"+twinRule("b("+x+")")+minusRule("a("+x+", "+y+")"),
+		twinRule("("+x+".Type.Is(`int64`))")+minusRule(inl))
+	add("two helpers by one :=, a string and a variable in either order; the second is called", "",
+		"\ta, b := func(s string, v dsl.Var) bool { return v.Type.Is(s) }, func(v dsl.Var, s string) bool { return v.Type.Is(s) && !v.Const }\n"+
+			twinRule("b("+x+", `int64`)")+minusRule("a(`int64`, "+x+")"),
+		twinRule("("+x+".Type.Is(`int64`) && !"+x+".Const)")+minusRule("("+x+".Type.Is(`int64`))"))
+	add("two helpers by one :=, the second calls the first with its parameters crossed", "",
+		"\ta := "+lit("v, w dsl.Var", "v", "w")+"\n\tb, c := func(w, v dsl.Var) bool { return a(w, v) }, func(v, w dsl.Var) bool { return a(w, v) }\n"+
+			twinRule("b("+x+", "+y+")")+minusRule("c("+x+", "+y+")"),
+		twinRule("(("+is(x, y)+"))")+minusRule("(("+is(y, x)+"))"))
 	// several groups of one file spell their filters alike and mean something else: equal-named constants of the groups with
 	// other values (used directly in Where, outside helpers), equal-named helpers with other bodies
 	addN := func(name, pkg string, groups ...[2]string) {
